@@ -793,3 +793,31 @@ func TestVFC07RegressBounds(t *testing.T) {
 	})
 	vfC07.Eval()
 }
+
+// TestVFC07RegressEscaped: a name with a byte that JSON escapes ("a&b.test",
+// asked for by a browser that resolves what was typed into the address bar) must
+// be found by a term that spans that byte, in memory and in the file alike.
+func TestVFC07RegressEscaped(t *testing.T) {
+	vfkit.Begin(t)
+	vfC07Known(t, vfC07SigEscaped, func(tb vfC07TB) {
+		s := vfC07NewSys(tb, vfC07Clients{}, 10, true, true, false)
+		defer s.close()
+		s.record(vfC07FixedRec("a&b.test", "192.0.2.1"), time.Second)
+		s.record(vfC07FixedRec("x<y.example", "192.0.2.1"), time.Second)
+		s.record(vfC07FixedRec("plain.example", "192.0.2.1"), time.Second)
+		for _, f := range []vfC07Filter{
+			{Kind: "host_substring", Term: "a&b"}, {Kind: "host_substring", Term: "<Y"},
+			{Kind: "host_exact", Term: `"a&b.test"`}, {Kind: "host_substring", Term: "example"},
+		} {
+			s.readAll(f, true)
+		}
+		s.flush()
+		for _, f := range []vfC07Filter{
+			{Kind: "host_substring", Term: "a&b"}, {Kind: "host_substring", Term: "<Y"},
+			{Kind: "host_exact", Term: `"a&b.test"`}, {Kind: "host_substring", Term: "example"},
+		} {
+			s.readAll(f, true)
+		}
+	})
+	vfC07.Eval()
+}
